@@ -482,6 +482,7 @@ func (x *Exec) modObjOf(env *Env, e SExpr) []modObj {
 		}
 		t := cenv.resolveType(id.Name)
 		if mt, ok := t.Underlying().(*types.Map); ok {
+			x.mapHeaps(env.st, mt) // make the three heaps known to the caller's state
 			dk, vk, lk := x.ti.MapKeys(mt)
 			return []modObj{{key: dk, all: true}, {key: vk, all: true}, {key: lk, all: true}}
 		}
